@@ -78,3 +78,23 @@ def fmt_path(path):
 
 def stmt_line(node):
     return getattr(node, "lineno", 0)
+
+
+def nearest_def(cfg, stmt, name):
+    """The closest assignment to ``name`` preceding ``stmt`` in its own block, else in the enclosing
+    blocks (structural reaching definition for straight-line code); None when not found."""
+    cur = stmt
+    while cur in cfg.parent:
+        par, fld, _lbl = cfg.parent[cur]
+        sibs = cfg._siblings(cur, par, fld)
+        if cur in sibs:
+            i = sibs.index(cur)
+            for prev in reversed(sibs[:i]):
+                if isinstance(prev, ast.Assign) and any(isinstance(n, ast.Name) and n.id == name for t in prev.targets for n in ast.walk(t)):
+                    return prev
+                if isinstance(prev, ast.AugAssign) and isinstance(prev.target, ast.Name) and prev.target.id == name:
+                    return prev
+        if par is None:
+            break
+        cur = par
+    return None
